@@ -225,7 +225,12 @@ WHERES = [
     "lambda e: e.met()",
 ]
 
-EXC = {"RuntimeError": RuntimeError, "KeyError": KeyError, "ValueError": ValueError, "ZeroDivisionError": ZeroDivisionError}
+class ColumnTypeError(TypeError):
+    """an executor's own error that happens to be a TypeError (what a compatibility fallback would mistake for a signature mismatch)"""
+
+
+EXC = {"RuntimeError": RuntimeError, "KeyError": KeyError, "ValueError": ValueError, "ZeroDivisionError": ZeroDivisionError,
+       "TypeError": TypeError, "ColumnTypeError": ColumnTypeError, "AttributeError": AttributeError, "NotImplementedError": NotImplementedError}
 
 _W: Optional["Runner"] = None       # the world the executors of the running history report to
 
@@ -1061,7 +1066,8 @@ TERMS = [("AsPandasDF", {"columns": ["a", "b"]}), ("AsPandasDF", {"columns": "c"
 NEWS = ["Select(S0, lambda e: e.x)", "f(S0, S1)", "Select(EventDataset(), lambda e: S0)", "g(x)", "MetaData(S1, {})",
         "Select(lambda e: e, S0)", "EventDataset()", "h(args)", "Where(EventDataset('a'), lambda e: EventDataset('b'))"]
 JOINS = ["lambda e: S0", "lambda e: (e.x, S1)", "lambda e: f(S0, S1)", "lambda e: MetaData(S2, {})"]
-RESULTS = [["R", "r1"], ["R", "r2"], ["X", "RuntimeError"], ["R", "r3"], ["X", "KeyError"]]
+RESULTS = [["R", "r1"], ["R", "r2"], ["X", "RuntimeError"], ["R", "r3"], ["X", "KeyError"], ["X", "TypeError"], ["R", "r1"], ["X", "ColumnTypeError"],
+           ["X", "AttributeError"], ["R", "r2"], ["X", "NotImplementedError"]]
 TITLES = [None, None, "a title", "t2"]
 
 
